@@ -274,7 +274,9 @@ def plant(rng, kind, cmd='cmd'):
             extra.append('<%s> ::= %s;' % (m, inner))
             inner = '<%s>' % m
         use, extra2 = through_defs('%s<%s>' % (pre, n)) if rng.random() < 0.5 else ('%s<%s>' % (pre, n), [])
-        stmts[0] = stmts[0][:-1] + ' ' + use + ';'
+        # the same definition may also be referenced as a whole word (where spaces are fine) BEFORE its use inside a word
+        whole = ('<%s> ' % n) if rng.random() < 0.4 else ''
+        stmts[0] = stmts[0][:-1] + ' ' + whole + use + ';'
         return stmts + extra + extra2 + ['<%s> ::= %s;' % (n, inner)], 'SubwordSpaces', l1
     if kind == 'subword_spaces_root_refs':
         # two space-separated items inside a word whose literal edges are only visible through the
